@@ -117,7 +117,7 @@ def callgrind_growth(check, cfg, seed, jobs):
 
     def family(fam):
         series = []
-        size = 10
+        size = 6
         while size <= 44:
             cmd = ["valgrind", "--tool=callgrind", "--callgrind-out-file=/dev/null", "--toggle-collect=*build_measured*", binp, "--family", str(fam), "--size", str(size), "--seed", str(seed)]
             try:
@@ -145,19 +145,26 @@ def callgrind_growth(check, cfg, seed, jobs):
             out["inconclusive"].append(f"callgrind.{cfg}: family {fam}: {err}")
             continue
         run = 0
+        strong = 0
         for i in range(1, len(series)):
             a, b = series[i - 1][1], series[i][1]
             r = b / max(a, 1)
+            # same rule as the native monitor: a step counts when the count grew by >= 3x AND by more
+            # than a polynomial of degree 6 could over the same growth in n; three such steps in a
+            # row, or two in a row that each exceed twice that threshold
+            thr = max(3.0, (series[i][0] / max(series[i - 1][0], 1)) ** 6)
             if b >= 1_000_000:
-                worst = max(worst, r)
-            if b >= 1_000_000 and r >= 3.0:
+                worst = max(worst, r / thr * 3.0)
+            if b >= 1_000_000 and r >= thr:
                 run += 1
-                if run >= 3:
-                    out["violations"].append({"prop": "C18", "kind": "build-instruction-count-grows-geometrically", "config": f"callgrind-{cfg}", "detail": f"growth family {fam}: instructions executed by build() (callgrind Ir) multiply by >= 3.0 on three consecutive +2-layer steps: (functions, instructions) = {series[:i + 1]}", "case": f"growth_family={fam}|seed={seed}", "log": ""})
+                strong = strong + 1 if r >= 2 * thr else 0
+                if run >= 3 or strong >= 2:
+                    out["violations"].append({"prop": "C18", "kind": "build-instruction-count-grows-geometrically", "config": f"callgrind-{cfg}", "detail": f"growth family {fam}: instructions executed by build() (callgrind Ir) grow faster than any polynomial of degree <= 6 (and by >= 3x) on {'three' if run >= 3 else 'two (each by twice the threshold)'} consecutive +2-layer steps: (functions, instructions) = {series[:i + 1]}", "case": f"growth_family={fam}|seed={seed}", "log": ""})
                     break
             else:
                 run = 0
-    out["summary"] = {"families": 8, "points_measured": points, "max_step_ratio": round(worst, 2), "series": {str(f): s for f, s, _ in results}}
+                strong = 0
+    out["summary"] = {"families": 8, "points_measured": points, "max_step_ratio_normalised_to_threshold_3": round(worst, 2), "series": {str(f): s for f, s, _ in results}}
     return out
 
 
